@@ -12,12 +12,12 @@ P = {
  "C02": (True, "model_checking", "explicit-state table exploration vs textbook reference + transition cover of find_iter / find_iter_from_iter + bounded-exhaustive enumeration vs the restart oracle",
   "Table equality (E1) plus a transition cover of the non-overlapping iterators from every trie node, plus exhaustive small-scope enumeration with the 'earliest end, longest, restart at end' oracle, both variants, slice and byte-iterator entry points.",
   "Same trusted base as C01.", "§3 C02"),
- "C03": (True, "exploration", "bounded-exhaustive enumeration of pattern sequences (all orders in thorough) x haystacks through the public API against a brute-force leftmost-longest oracle; trie-structure exploration and flush-tail cover of the leftmost iterator on the population",
-  "No independent state-level reference exists for the leftmost automaton, so the verdict is bounded: every pattern sequence of the stated scopes (pattern length >= 4 included, which a measured mutant needs) x every haystack up to the bound, plus cover haystacks w.c.t on the large families.",
-  "Bounded: patterns up to length 4-5 over 2-3 letters, haystacks up to 6-8. Oracle: brute force.", "§3 C03"),
- "C04": (True, "exploration", "bounded-exhaustive enumeration of ordered pattern sequences x haystacks against a brute-force leftmost-first oracle, plus a shadow differential (removing shadowed patterns must not change any result)",
-  "Every ordered duplicate-free sequence of the scope (order is significant) x every haystack; the never-reported clause and the no-influence clause are checked on every case.",
-  "Bounded as C03.", "§3 C04"),
+ "C03": (True, "model_checking", "product exploration of the leftmost iterator's configuration graph (state, pending candidate, distance to its end - stepped with the crate's own leftmost transition function, every pair replayed on the public iterator) with a reference machine that implements the definition of leftmost-longest search, for all labels, on every automaton of the population; plus bounded-exhaustive enumeration of pattern sequences x haystacks against a brute-force oracle (which also validates the reference machine)",
+  "A completed product exploration (E7) shows for one automaton that the first match of a scan is right for every text - at the end of the text both sides hold the same match, and whenever the iterator returns early the definition is already decided on that match - hence every sequence of matches, each call being a fresh scan from the previous end. The small scopes (pattern length up to 5-6, all orders in the thorough tier) are enumerated exhaustively with all haystacks up to the bound (E2), and every E2 case validates the reference machine against brute force.",
+  "Population of large automata is a designed family. The iterator model (10 lines mirroring LestmostFindIterator::next) is bound to the code by running the public iterator on the access text of every explored pair. Differences are confirmed on a concrete haystack through the public API before an alarm is raised.", "§3 C03, §11.16"),
+ "C04": (True, "model_checking", "as C03 with the leftmost-first definition (earliest-registered pattern at the leftmost start; the reference machine works on the full ordered pattern list, shadowed patterns included), plus bounded-exhaustive enumeration of ordered pattern sequences and a shadow differential",
+  "Product exploration (E7) per automaton for all texts; every ordered duplicate-free sequence of the small scopes x every haystack (E2); the never-reported clause and the no-influence clause are checked on every case.",
+  "As C03.", "§3 C04, §11.16"),
  "C05": (True, "model_checking", "explicit-state table exploration (head of every state's output chain = longest pattern ending there) + transition cover of the no-suffix iterators + bounded-exhaustive enumeration",
   "As C01 for the no-suffix iterators.", "Same trusted base as C01.", "§3 C05"),
  "C06": (True, "exploration", "bounded-exhaustive enumeration of pattern sets x value assignments x 13 value types x match kinds x search methods, before and after a serialisation round trip",
